@@ -74,6 +74,7 @@ def monitor_start_update_check(chk, nresp_list=(1, 2)):
     o_book = chk.ob('check-bookkeeping', 'after a check: success -> failure count 0 and last contact = now; unparseable body / unusable plan -> count+1 (saturating) and last contact = now; request error -> count+1 and last contact untouched; reason metric Omaha / Internal / Network accordingly; AttemptsToSuccessfulCheck(count+1) on success')
     o_final = chk.ob('final-announcements-and-persist', 'every check ends with ScheduleChange(final schedule), ProtocolStateChange(final state), UpdateCheckResult(result), in this order, followed by persist(context) + persist(apps) + commit before the flow returns')
     o_apps = chk.ob('app-set-updated-only-on-success', 'the app set is updated from the response exactly when the check succeeded, with the check\'s own app responses; install attempts are reported iff some app failed or installed')
+    o_inst = chk.ob('install-attempt-outcome', 'the install-attempt counter is reported (and stepped) exactly for checks in which some app failed to install or was updated: as a failure if any app failed, as a success only if none failed')
     o_c02 = chk.ob('forged-check-counts-as-failure', 'a check that ended with an authentication failure: failure count + 1, last contact untouched, reason Internal, app set not updated, result Err(OmahaRequest(CupValidation)), no reboot')
     Ds = {}
     nforged = 0
@@ -85,7 +86,7 @@ def monitor_start_update_check(chk, nresp_list=(1, 2)):
                 return n
             raise Inconclusive('no shape for %s : %s' % (origin, ty))
         ex = make_sm_executor(chk, dict(unroll=5, env_assume=mk_assume('sut'), shape=shape, max_paths=20000), cuts=('persist', 'appset', 'puc'))
-        for o in (o_book, o_final, o_apps, o_c02):
+        for o in (o_book, o_final, o_apps, o_inst, o_c02):
             if o.name not in Ds:
                 Ds[o.name] = Decide(chk, ex, o, cross=(o is o_book))
             Ds[o.name].ex = ex
@@ -141,27 +142,32 @@ def monitor_start_update_check(chk, nresp_list=(1, 2)):
                     av = a[2] if isinstance(a, tuple) else a
                     if not ex.veq(av, ars):
                         DA.failed = DA.failed or ('violated', 'app set updated from something else than the check\'s app responses', None, st)
-                # install attempts
-                acts = []
+                    # ... and before the apps are written out: what is committed with this check's result
+                    # are this check's values
+                    i_ufo = st.trace.index(ufo[0])
+                    i_pa = [i for i, e in enumerate(st.trace) if e.kind in ('env', 'model') and e.name.split('>::')[-1].split('::')[-1] == 'persist' and e.name != 'Context::persist']
+                    if not i_pa or i_pa[-1] < i_ufo:
+                        DA.failed = DA.failed or ('violated', 'the apps are written to storage before they are updated from the response (the stored cohort / day values lag one check behind): %s' % sty, None, st)
+                # install attempts: decided symbolically over the apps' actions (whatever the code looked at)
                 i_f = ex.src.variant_index('Action', 'InstallPlanExecutionError')
                 i_u = ex.src.variant_index('Action', 'Updated')
-                for v in vec_items(ex, st, ars, 'update_check::AppResponse'):
-                    dt = ex.discr_of(st, ex.child(st, v, fidx(ex, 'AppResponse', 'result'), 'update_check::Action')).t
-                    isf, isu = dval(ex, st, dt == i_f), dval(ex, st, dt == i_u)
-                    # the fold stops looking once a failure was seen: later apps may stay undecided
-                    acts.append('InstallPlanExecutionError' if isf == 1 else 'Updated' if isu == 1 else 'other' if (isf == 0 and isu == 0) else None)
-                if None in acts and 'InstallPlanExecutionError' not in acts[:acts.index(None)]:
-                    DA.failed = DA.failed or ('inconclusive', 'actions undecided on path: %s' % acts, None, st)
+                dts = [ex.discr_of(st, ex.child(st, v, fidx(ex, 'AppResponse', 'result'), 'update_check::Action')).t
+                       for v in vec_items(ex, st, ars, 'update_check::AppResponse')]
+                failed = z3.Or([z3.BoolVal(False)] + [dt == i_f for dt in dts])
+                updated = z3.Or([z3.BoolVal(False)] + [dt == i_u for dt in dts])
+                ati = [r for r in reasons if r[0] == 'AttemptsToSuccessfulInstall']
+                DI = Ds['install-attempt-outcome']
+                if len(ati) > 1:
+                    DI.failed = DI.failed or ('violated', 'install attempts reported %d times in one check' % len(ati), None, st)
+                elif ati:
+                    succ = payload(ex, st, ati[0][1], ex.src.variant_index('Metrics', 'AttemptsToSuccessfulInstall'), 1, 'bool')
+                    DI.require(st, z3.And(z3.Or(failed, updated), succ.t == z3.Not(failed)),
+                               'install attempts reported only when some app failed or was updated, successful iff no app failed')
+                    fd = dval(ex, st, failed)
+                    if fd is not None:
+                        cover.add('install-failed' if fd == 1 else 'install-ok')
                 else:
-                    failed = 'InstallPlanExecutionError' in acts
-                    updated = 'Updated' in acts
-                    ati = [r for r in reasons if r[0] == 'AttemptsToSuccessfulInstall']
-                    if (failed or updated) != (len(ati) == 1):
-                        DA.failed = DA.failed or ('violated', 'install attempts metric %s for actions %s' % (len(ati), acts), None, st)
-                    elif ati:
-                        succ = payload(ex, st, ati[0][1], ex.src.variant_index('Metrics', 'AttemptsToSuccessfulInstall'), 1, 'bool')
-                        DA.require(st, succ.t == z3.BoolVal(not failed), 'AttemptsToSuccessfulInstall.successful iff no app failed')
-                        cover.add('install-failed' if failed else 'install-ok')
+                    DI.require(st, z3.Not(z3.Or(failed, updated)), 'no install-attempt report only when no app failed or was updated')
             elif rd == 1:
                 err = payload(ex, st, res_v, 1, 0, 'state_machine::UpdateCheckError')
                 ek = variant_name(ex, 'UpdateCheckError', dval(ex, st, ex.discr_of(st, err).t))
